@@ -39,6 +39,10 @@ func TestEngine(t *testing.T) {
 		runLockup(t, seed, n, dir)
 	case "gamm":
 		runGamm(t, seed, n, dir)
+	case "twap":
+		runTwap(t, seed, n, dir)
+	case "router":
+		runRouter(t, seed, n, dir)
 	case "cl":
 		runCL(t, seed, n, dir)
 	default:
